@@ -23,14 +23,15 @@ def arithMean (M : Mesh α) (φ : CellFld α) (d : Dir) (c : Idx) : α :=
   let a := M.axis d; let f := c.get d
   amean2 (a.DX f) (a.DX (f+1)) (φ c) (φ (c.next d))
 
-/-- `harmonicMean` at face `c.get d`.  1-D grids use the loop with the explicit zero
-    branch; 2-D/3-D grids use the closed form, which is `0/0` for two adjacent zeros. -/
+/-- `harmonicMean` at face `c.get d`.  A zero neighbour gives 0 in every dimension (explicit
+    branch in the 1-D loop and in `_harmonic_face`); otherwise 1-D grids use the loop formula and
+    2-D/3-D grids the closed form (the two divisors vanish together). -/
 def harmMean (M : Mesh α) (φ : CellFld α) (d : Dir) (c : Idx) : Option α :=
   let a := M.axis d; let f := c.get d
   let p0 := φ c; let p1 := φ (c.next d)
-  if M.kind.dim = 1 then
-    if p0 = 0 ∨ p1 = 0 then some 0
-    else sdiv (a.DX (f+1) + a.DX f) (a.DX (f+1) / p1 + a.DX f / p0)
+  if p0 = 0 ∨ p1 = 0 then some 0
+  else if M.kind.dim = 1 then
+    sdiv (a.DX (f+1) + a.DX f) (a.DX (f+1) / p1 + a.DX f / p0)
   else
     sdiv (p1 * p0 * (a.DX (f+1) + a.DX f)) (a.DX (f+1) * p0 + a.DX f * p1)
 
